@@ -92,8 +92,7 @@ Record config := mkCfg {
   g_cap : nat;
   g_r2ps : bool;
   g_ver : Z;
-  g_srv : server;
-  g_putfail0 : bool     (* allow PutOne/PutMulti of the flow buffer to fail on a done context while state = 0 *)
+  g_srv : server
 }.
 
 (** Program counter of a caller (Do / DoMulti). *)
@@ -105,8 +104,9 @@ Inductive pc :=
 | PSyncW                (* about to write its commands itself (syncDo / syncDoMulti) *)
 | PSyncR (k : nat)      (* k replies still to read *)
 | PErr                  (* state >= 2: about to fill in p.Error() *)
-| PDecr (st0 : bool)    (* about to decrWaitsAndIncrRecvs; st0 = the state it loaded was 0 *)
-| PBgAfter              (* left != 0 && state == 0: about to call background() *)
+| PDecr (st0 : bool)    (* leaveSync: st0 = the state it loaded was 0 (and there is a queue): about to try the
+                           compare-and-swap waits 1 -> 0; otherwise about to decrWaitsAndIncrRecvs *)
+| PBgAfter              (* state == 0 and others are counted: about to call background(), its own count still held *)
 | PPut                  (* about to PutOne / PutMulti *)
 | PWait                 (* select on the result channel and ctx.Done *)
 | PGot                  (* received from the channel; about to decrWaitsAndIncrRecvs *)
@@ -424,16 +424,16 @@ Definition pstep (g : config) (s : pstate) (l : label) : option pstate :=
     let c := p_calls s t in
     match k_pc c with
     | PDecr st0 =>
-      let left := pred (p_waits s) in
-      let s1 := set_waits s left in
-      if st0 && negb (Nat.eqb left 0) then Some (set_call s1 t (with_pc c PBgAfter))
-      else Some (set_call s1 t (with_ret c (k_res c)))
+      (* leaveSync: `if state == 0 && p.queue != nil { if p.decrWaitsAndIncrRecvsIfLast() { return }; p.background() }
+         p.decrWaitsAndIncrRecvs()` *)
+      if st0 && negb (Nat.eqb (p_waits s) 1) then Some (set_call s t (with_pc c PBgAfter))
+      else Some (set_call (set_waits s (pred (p_waits s))) t (with_ret c (k_res c)))
     | _ => None
     end
   | LBgAfter t =>
     let c := p_calls s t in
     match k_pc c with
-    | PBgAfter => Some (set_call (do_background s) t (with_ret c (k_res c)))
+    | PBgAfter => Some (set_call (do_background s) t (with_pc c (PDecr false)))
     | _ => None
     end
   | LPut t =>
@@ -451,7 +451,7 @@ Definition pstep (g : config) (s : pstate) (l : label) : option pstate :=
     let c := p_calls s t in
     match k_pc c, g_kind g with
     | PPut, Flow =>
-      if k_done c && k_ctxput c && (g_putfail0 g || negb (N.eqb (p_st s) 0)) then
+      if k_done c && k_ctxput c then
         Some (set_call (set_waits s (pred (p_waits s))) t (with_ret c (errs_for c ECtx)))
       else None
     | _, _ => None
@@ -699,7 +699,7 @@ Inductive owner := Nobody | SyncCaller (t : N) | Background.
 (** counts held on p.wrCounter *)
 Definition holds (c : crec) : nat :=
   (match k_pc c with
-   | PLoad _ | PBg | PSyncW | PSyncR _ | PErr | PDecr _ | PPut | PWait | PGot => 1
+   | PLoad _ | PBg | PSyncW | PSyncR _ | PErr | PDecr _ | PBgAfter | PPut | PWait | PGot => 1
    | _ => 0
    end +
    match k_drain c with DWait | DGot => 1 | _ => 0 end)%nat.
